@@ -56,7 +56,7 @@ let next_proj st =
   let en = (match next st with "R" -> EReturn | "X" -> ERaise | "E" -> ESysExit | t -> failwith ("ending " ^ t)) in
   { pj_id = id; pj_kind = kind; pj_arg = arg; pj_dir = dir; pj_setupdir = sd; pj_helpers = helpers; pj_ops = ops; pj_end = en }
 let print_pstate s =
-  Printf.sprintf "%s %d %s %d %s %d %s %d %s" (cl_hex s.g_cwd)
+  Printf.sprintf "%s %s %d %s %d %s %d %s %d %s" (cl_hex s.g_cwd) (b2s s.g_capture)
     (List.length s.g_path) (String.concat " " (List.map cl_hex s.g_path))
     (List.length s.g_meta) (String.concat " " (List.map (fun h -> string_of_int (int_of_nat h.h_owner)) s.g_meta))
     (List.length s.g_modules) (String.concat " " (List.map (fun (n, o) -> cl_hex n ^ ":" ^ string_of_int (int_of_nat o)) s.g_modules))
@@ -111,13 +111,13 @@ let handle line =
      | RSetupPy -> "SetupPy" | RCfgOnly -> "CfgOnly" | RPep517 -> "Pep517" | RNothing -> "Nothing")
   | "S" ->
     (* S cwd npath path... nproj proj... : every analysis' outcome, guard and the state after it *)
-    let cwd = next_str st in let path = next_list st next_str in
+    let cwd = next_str st in let cap = next_bool st in let path = next_list st next_str in
     let ps = next_list st next_proj in
-    let s0 = { g_cwd = cwd; g_path = path; g_meta = []; g_modules = []; g_patched = [] } in
+    let s0 = { g_cwd = cwd; g_path = path; g_meta = []; g_modules = []; g_patched = []; g_capture = cap } in
     let rec go s = function
       | [] -> []
       | p :: r -> let (o, s') = analyse s p in
-        (b2s (quiescent s && neutral s p) ^ " | " ^ print_outcome o ^ " | " ^ print_pstate s') :: go s' r in
+        (b2s (quiescent s) ^ " | " ^ print_outcome o ^ " | " ^ print_pstate s') :: go s' r in
     String.concat " || " (go s0 ps)
   | c -> failwith ("bad command " ^ c)
 
